@@ -132,6 +132,20 @@ def fill_cases(ctx):
         ops += [["open", f"o{i}", f"/f/ONE{i:02d}.BIN", "w"], ["write", f"o{i}", "6f"], ["hclose", f"o{i}"]]
     ops += [["listdir", "/f"], ["remove", "/f/S03.BIN"], ["open", "z", "/f/AGAIN.BIN", "w"], ["write", "z", "7a" * (7 * info["bpc"])], ["hclose", "z"], ["closefs"]]
     out.append(history.Case("fill12-last-entry", img, ops, mount=dict(encoding="ibm437"), meta=dict(source="build", ft=12, **kw)))
+    # FAT12 entries 341, 682, ... lie ACROSS a sector boundary of the table (1.5 bytes each): a first file that ends exactly in cluster 341, a second
+    # one that ends in cluster 682, nothing allocated behind them before the volume is closed (C03-m7: a flush that writes only the sectors of the
+    # changed entries, computed from the byte where an entry STARTS)
+    kw = dict(clusters=700, rootent=16)
+    img, info = fatspec.build(12, **kw)
+    bpc = info["bpc"]
+    # B = [2]; A = [3..341], ending exactly in the straddling entry; C = [342] (its flush writes the second sector); B removed; A appended by one
+    # cluster: 341 -> 2, a link whose low bits lie in the first sector and whose high bits lie in the second
+    ops = [["open", "b", "/B.BIN", "w"], ["write", "b", "62" * bpc], ["hclose", "b"],
+           ["open", "a", "/TO341.BIN", "w"], ["write", "a", "61" * (339 * bpc)], ["hclose", "a"], ["getsize", "/TO341.BIN"],
+           ["open", "c", "/C.BIN", "w"], ["write", "c", "63" * bpc], ["hclose", "c"], ["remove", "/B.BIN"],
+           ["open", "a2", "/TO341.BIN", "a"], ["write", "a2", "64" * bpc], ["hclose", "a2"],
+           ["listdir", "/"], ["closefs"]]         # (nothing is allocated behind them afterwards: a later flush of the second sector would repair it)
+    out.append(history.Case("fat12-straddling-entries", img, ops, mount=dict(encoding="ibm437"), meta=dict(source="build", ft=12, **kw)))
     return out
 
 
@@ -185,6 +199,16 @@ def run_histories(ctx, oracles, nprog, nops, kind="namespace", vol_filter=None, 
                     ctx.dist["scripted"] += 1
                     if add_close and si % 2 == 0:
                         second_session(ctx, case, r, oracles, m, use_model, remount_every)
+        # (the fixed cases before the random programs: they must not fall victim to the time budget)
+        if fill is None:
+            fill = scripted and vol_filter is None and any(o in oracles for o in ("fsck", "interop", "io_bounds", "remount"))
+        for case in list(extra_cases) + (fill_cases(ctx) if fill else []):
+            if ctx.time_left() < 5:
+                break
+            if case.label.startswith("fill") and "offset" in case.mount and "io_bounds" not in oracles:
+                case.mount = {k: v for k, v in case.mount.items() if k != "offset"}
+            history.run_case(ctx, case, oracles=oracles, model=m, use_model=use_model, remount_every=False)
+            ctx.dist["fill-case" if case.label.startswith("fill") else "extra-case"] += 1
         for i in range(nprog):
             if ctx.time_left() < 0:
                 ctx.notes.append(f"time budget reached after {i} programs")
@@ -210,15 +234,6 @@ def run_histories(ctx, oracles, nprog, nops, kind="namespace", vol_filter=None, 
             ctx.dist["vol:" + label] += 1
             ctx.sample(dict(volume=label, mount=mnt, ops=[o[:3] if o[0] != "write" else [o[0], o[1], f"<{len(o[2]) // 2} bytes>"] for o in ops[:12]],
                             n_ops=len(ops), errors=nerr))
-        if fill is None:
-            fill = scripted and vol_filter is None and any(o in oracles for o in ("fsck", "interop", "io_bounds", "remount"))
-        for case in list(extra_cases) + (fill_cases(ctx) if fill else []):
-            if ctx.time_left() < 5:
-                break
-            if case.label.startswith("fill") and "offset" in case.mount and "io_bounds" not in oracles:
-                case.mount = {k: v for k, v in case.mount.items() if k != "offset"}
-            history.run_case(ctx, case, oracles=oracles, model=m, use_model=use_model, remount_every=False)
-            ctx.dist["fill-case" if case.label.startswith("fill") else "extra-case"] += 1
     finally:
         if m:
             m.close()
